@@ -321,6 +321,10 @@ func (r *Ref) structConv(src reflect.Value, T reflect.Type, st, stNext state, pa
 		case len(fs.Path) > 0:
 			v, ok, err := walkPath(src, fs.Path)
 			if err != nil {
+				if re, isRef := err.(*RefError); isRef {
+					// a fallible source method: the error is located at the target field it feeds
+					re.Path = fpath
+				}
 				return out, err
 			}
 			sv, have = v, ok
@@ -341,6 +345,9 @@ func (r *Ref) structConv(src reflect.Value, T reflect.Type, st, stNext state, pa
 			}
 			v, _, err := walkPath(src, p)
 			if err != nil {
+				if re, isRef := err.(*RefError); isRef {
+					re.Path = fpath
+				}
 				return out, err
 			}
 			sv, have = v, true
